@@ -240,7 +240,8 @@ func (p *Parser) ParseInfixExpression(left ast.Expression) ast.Expression {
 }
 
 func (p *Parser) ParseExpression() ast.Expression {
-	return p.expressionParseFn(p, LOWEST)
+	// a whole expression: operators of every level, LOWEST included, belong to it
+	return p.expressionParseFn(p, LOWEST-1)
 }
 
 func (p *Parser) ParseExpressionWithPrecedence(precedence int) ast.Expression {
@@ -462,7 +463,9 @@ func (p *Parser) ParseAssignmentExpression(left ast.Expression) ast.Expression {
 		p.AddError("invalid assignment target")
 	}
 	p.NextToken()
-	expression.Value = p.ParseExpression()
+	// the value extends over everything that binds tighter than assignment itself,
+	// a following assignment included (right-associative)
+	expression.Value = p.expressionParseFn(p, ASSIGNMENT-1)
 	return expression
 }
 
@@ -481,7 +484,9 @@ func (p *Parser) ParseCompoundAssignmentExpression(left ast.Expression) ast.Expr
 		expression.Operator = "-"
 	}
 	p.NextToken()
-	expression.Value = p.ParseExpression()
+	// the value extends over everything that binds tighter than assignment itself,
+	// a following assignment included (right-associative)
+	expression.Value = p.expressionParseFn(p, ASSIGNMENT-1)
 	return expression
 }
 
